@@ -4,6 +4,9 @@
 //! `generate`: every declaration of the schema declaration file, the resolvers file and each operation declaration
 //! file parses (`nvh::tsparse`) to the same tree modulo declaration order, union/intersection member order, object
 //! key order, JSDoc comments, and the eight `__*` introspection types (documented exceptions of the property).
+//! Documents per project: valid generated ones, route-sensitive probes (`variants`), and the labelled catalogue of
+//! `catalogue.rs` (one fault per mutation operator of the operation-checker properties, an impossible and an applicable
+//! spread for every pair of kinds, same-named members of several types under their own aliases).
 use crate::json::{introspection_json, INTROSPECTION_TYPES, J};
 use nvh::cli::{fresh_dir, run_cli, snapshot, Project};
 use nvh::gen::{gen_doc, gen_project_cfg, GenCfg, SchemaModel};
@@ -367,11 +370,7 @@ pub fn run_project(args: &Args, cli: &str, rep: &mut Report, pc: &ProjectCase, t
         pr.write(d);
     }
     // ---- check, all documents
-    let t0 = std::time::Instant::now();
     let outs: Vec<CheckOut> = run_both(cli, &dirs, "check");
-    if std::env::var("C15_TIMING").is_ok() {
-        eprintln!("check x2 {:?}", t0.elapsed());
-    }
     rep.evaluations += 2;
     let (a, b) = (&outs[0], &outs[1]);
     if a.code.is_none() || b.code.is_none() || a.code.map_or(false, |c| c > 1) || b.code.map_or(false, |c| c > 1) {
@@ -421,11 +420,7 @@ pub fn run_project(args: &Args, cli: &str, rep: &mut Report, pc: &ProjectCase, t
         }
     }
     if !schema_level_failure {
-        let t0 = std::time::Instant::now();
         let gens: Vec<CheckOut> = run_both(cli, &dirs, "generate");
-        if std::env::var("C15_TIMING").is_ok() {
-            eprintln!("generate x2 {:?}", t0.elapsed());
-        }
         rep.evaluations += 2;
         if gens[0].code != Some(0) || gens[1].code != Some(0) {
             rep.fail("O", "generate:exit-code", &format!("generate on documents both routes accept: sdl exit {:?} ({}), json exit {:?} ({})", gens[0].code, gens[0].raw, gens[1].code, gens[1].raw), pc.to_json(None));
@@ -518,11 +513,7 @@ pub fn o_case(args: &Args, cli: &str, rep: &mut Report, m: &SchemaModel, seed: u
         return;
     }
     let mut rng = Rng::new(seed.wrapping_mul(0x9E37_79B9).wrapping_add(15));
-    let t0 = std::time::Instant::now();
     let (pc, feats) = build_project(m, &mut rng);
-    if std::env::var("C15_TIMING").is_ok() {
-        eprintln!("build_project {:?} docs {}", t0.elapsed(), pc.docs.len());
-    }
     for f in feats {
         rep.count(&format!("doc-feature:{}", f.split(':').next().unwrap_or("")));
     }
